@@ -123,6 +123,9 @@ type vStorage struct {
 	h          *vRun
 	closes     int
 	afterClose int
+	// fault injection ("disk full"): writing the queue-size snapshot (key "si") fails / Close fails
+	failSize  bool
+	failClose bool
 }
 
 func (s *vStorage) GetClient(context.Context, component.Kind, component.ID, string) (storage.Client, error) {
@@ -150,9 +153,13 @@ func (c *vClient) Close(context.Context) error {
 	c.closed = true
 	c.s.closes++
 	h := c.s.h
+	fail := c.s.failClose
 	c.s.mu.Unlock()
 	if h != nil {
 		h.log(6, nil, 0)
+	}
+	if fail {
+		return errors.New("storage: close failed")
 	}
 	return nil
 }
@@ -162,6 +169,13 @@ func (c *vClient) Batch(_ context.Context, ops ...*storage.Operation) error {
 	if c.closed {
 		c.s.afterClose++
 		return errors.New("storage client is closed")
+	}
+	if c.s.failSize {
+		for _, op := range ops {
+			if op.Type == storage.Set && op.Key == "si" {
+				return errors.New("storage: no space left on device")
+			}
+		}
 	}
 	for _, op := range ops {
 		switch op.Type {
@@ -205,6 +219,9 @@ type vCfg struct {
 	consumers  int
 	min        int
 	wait       bool // wait_for_result (memory queue): Send returns, with the export's result, when Done is called
+	itemsSizer bool // the queue is sized by items instead of requests (always so with sending_queue::batch)
+	faultSize  bool // persistent: the queue-size snapshot cannot be written (persistentQueue.Shutdown returns an error when sized by items)
+	faultClose bool // persistent: client.Close returns an error
 	noqueue    bool // deprecated: WithBatcher without a queue = memory queue, wait_for_result, blocking, one consumer
 	// stress schedules only
 	max      int           // max_size (0 = none)
@@ -223,7 +240,10 @@ func (c vCfg) term() string {
 	if c.batch {
 		n = 1 // queue_batch.go: cfg.NumConsumers = 1 when batching
 	}
-	return vList([]string{b(c.persistent), b(c.batch), b(c.timer), vNat(c.mode), vNat(n), vNat(c.min), b(c.wait)})
+	// the snapshot is only written when the queue is not sized by requests (sending_queue::batch => items)
+	fsize := c.faultSize && c.persistent && c.itemsSizer
+	return vList([]string{b(c.persistent), b(c.batch), b(c.timer), vNat(c.mode), vNat(n), vNat(c.min), b(c.wait),
+		b(fsize), b(c.faultClose && c.persistent)})
 }
 
 type vEvent struct {
@@ -258,14 +278,14 @@ type vRun struct {
 // offer performs one Send.  Without wait_for_result it is synchronous; with it the call returns only when
 // the request's Done callback has run, so it gets its own goroutine and the offer event (4 ok / 5 error)
 // is logged when Send returns.
-func (h *vRun) offer(id, items int) (enqueued bool) {
-	req := &vReq{ids: []int{id}, items: items}
+func (h *vRun) offer(ids []int, items int) (enqueued bool) {
+	req := &vReq{ids: ids, items: items}
 	if !h.cfg.wait {
 		if err := h.be.Send(context.Background(), req); err != nil {
-			h.log(5, []int{id}, 0)
+			h.log(5, ids, 0)
 			return false
 		}
-		h.log(4, []int{id}, 0)
+		h.log(4, ids, 0)
 		return true
 	}
 	h.pwg.Add(1)
@@ -276,9 +296,9 @@ func (h *vRun) offer(id, items int) (enqueued bool) {
 			return // the schedule is over: an offer after the return would wait for ever
 		}
 		if err != nil {
-			h.log(5, []int{id}, 0)
+			h.log(5, ids, 0)
 		} else {
-			h.log(4, []int{id}, 0)
+			h.log(4, ids, 0)
 		}
 	}()
 	return true
@@ -412,6 +432,7 @@ func vNewRun(cfg vCfg, st *vStorage, auto bool) (*vRun, error) {
 	h.ctx, h.cancel = context.WithCancel(context.Background())
 	st.mu.Lock()
 	st.h = h
+	st.failSize, st.failClose = cfg.faultSize, cfg.faultClose
 	st.mu.Unlock()
 	sizers := map[request.SizerType]request.Sizer[request.Request]{
 		request.SizerTypeRequests: request.RequestsSizer[request.Request]{},
@@ -438,6 +459,9 @@ func vNewRun(cfg vCfg, st *vStorage, auto bool) (*vRun, error) {
 		if cfg.flush > 0 {
 			flush = cfg.flush
 		}
+	}
+	if cfg.itemsSizer {
+		qcfg.Sizer = request.SizerTypeItems
 	}
 	if cfg.batch && !cfg.legacy {
 		qcfg.Sizer = request.SizerTypeItems
@@ -561,6 +585,7 @@ func vBatchTimer(be *BaseExporter) (t *time.Timer) {
 }
 
 type vSched struct {
+	split  bool // oracle-only schedule of the split family
 	term   string
 	racy   bool
 	failed bool
@@ -676,6 +701,7 @@ func vOracle(h *vRun, cfg vCfg, st *vStorage, acceptedPre []int, stored []int, h
 func vRestart(out *vOut, cfg vCfg, st *vStorage, stored []int, fail func(kind, detail string)) {
 	cfg2 := cfg
 	cfg2.mode = 0
+	cfg2.faultSize, cfg2.faultClose = false, false
 	cfg2.capacity = 0 // not C01's finding F2: a full queue at restart refuses the re-enqueue of dispatched items
 	h2, err := vNewRun(cfg2, st, true)
 	if err != nil {
@@ -713,7 +739,12 @@ func vRestart(out *vOut, cfg vCfg, st *vStorage, stored []int, fail func(kind, d
 }
 
 // vSchedule generates and runs one schedule; evaluates the direct oracle; returns the case term.
-func vSchedule(out *vOut, rng *vRand, nr int) vSched {
+//
+// split = true: the "split" family — batching with a small max_size (1-2 items) and requests of 2-3 items, each
+// item with its own id (request r = items 10r+1 ..), so that ONE queued request is exported by SEVERAL calls whose
+// outcomes the generator chooses independently (more permanent failures).  The LTS does not model splitting:
+// these schedules are oracle-only (item-level oracle, restart check).
+func vSchedule(out *vOut, rng *vRand, nr int, split bool) vSched {
 	cfg := vCfg{
 		persistent: rng.Intn(100) < 40,
 		batch:      rng.Intn(100) < 50,
@@ -726,7 +757,20 @@ func vSchedule(out *vOut, rng *vRand, nr int) vSched {
 	if !cfg.batch {
 		cfg.timer, cfg.legacy, cfg.min = false, false, 0
 	}
-	if !cfg.persistent && rng.Intn(100) < 25 {
+	if split {
+		cfg.persistent = rng.Intn(100) < 65
+		cfg.batch = true
+		cfg.legacy = rng.Intn(100) < 30
+		cfg.timer = rng.Bool()
+		cfg.max = 1 + rng.Intn(2)
+		cfg.min = 1 + rng.Intn(cfg.max)
+	}
+	cfg.itemsSizer = (cfg.batch && !cfg.legacy) || rng.Intn(100) < 40
+	if cfg.persistent {
+		cfg.faultSize = rng.Intn(100) < 35
+		cfg.faultClose = rng.Intn(100) < 35
+	}
+	if !split && !cfg.persistent && rng.Intn(100) < 25 {
 		cfg.wait = true
 		if cfg.batch && cfg.legacy && rng.Bool() {
 			cfg.noqueue = true
@@ -738,11 +782,25 @@ func vSchedule(out *vOut, rng *vRand, nr int) vSched {
 		out.Oracle("harness-setup", cfg.term(), err.Error())
 		return vSched{failed: true}
 	}
-	res := vSched{}
+	res := vSched{split: split}
 	var phases []string
+	reqIDs := func(id, items int) []int {
+		if !split {
+			return []int{id}
+		}
+		ids := make([]int, items)
+		for j := range ids {
+			ids[j] = 10*id + j + 1
+		}
+		return ids
+	}
 	fail := func(kind, detail string) {
 		res.failed = true
-		out.Oracle(kind, fmt.Sprintf("(%s, %s, ([], 0))", cfg.term(), vList(phases)), detail)
+		term := fmt.Sprintf("(%s, %s, ([], 0))", cfg.term(), vList(phases))
+		if split {
+			term = fmt.Sprintf("(* split family, max_size %d, item ids 10r+j: %s *)", cfg.max, term)
+		}
+		out.Oracle(kind, term, detail)
 		vFlush(out)
 	}
 	endPhase := func(act string) bool {
@@ -826,9 +884,12 @@ func vSchedule(out *vOut, rng *vRand, nr int) vSched {
 		switch rng.Pick(wOffer, wRel, wShut, wTimer) {
 		case 0:
 			id, items := nextID, 1+rng.Intn(3)
+			if split && items == 1 && rng.Bool() {
+				items = 3
+			}
 			nextID++
-			if h.offer(id, items) {
-				accepted = append(accepted, id) // enqueued (with wait_for_result: not yet returned)
+			if ids := reqIDs(id, items); h.offer(ids, items) {
+				accepted = append(accepted, ids...) // enqueued (with wait_for_result: not yet returned)
 			}
 			if shutdownCalled {
 				out.Stat("late_offers", 1)
@@ -838,6 +899,9 @@ func vSchedule(out *vOut, rng *vRand, nr int) vSched {
 			sort.Slice(infl, func(a, b int) bool { return infl[a].ids[0] < infl[b].ids[0] })
 			c := infl[rng.Intn(len(infl))]
 			o := rng.Pick(55, 30, 15)
+			if split {
+				o = rng.Pick(45, 30, 25)
+			}
 			out.Stat(fmt.Sprintf("outcome_%d", o), 1)
 			if o == 1 && cfg.mode == 1 && !shutdownCalled {
 				backoff[c.ids[0]] = true
@@ -848,12 +912,7 @@ func vSchedule(out *vOut, rng *vRand, nr int) vSched {
 			// persistent queue: a consumer woken from its back-off by close(stopCh) races with the queue's
 			// stop for the next stored item; both orders are legal: such schedules are oracle-only.
 			if cfg.persistent && len(backoff) > 0 {
-				bg := begunIDs()
-				for _, i := range accepted {
-					if !bg[i] {
-						res.racy = true
-					}
-				}
+				res.racy = true
 			}
 			shutdownCalled = true
 			begunAtCall = begunIDs()
@@ -865,8 +924,11 @@ func vSchedule(out *vOut, rng *vRand, nr int) vSched {
 			}
 			h.log(7, nil, 0)
 			go func() {
-				_ = h.be.Shutdown(context.Background())
-				h.log(2, nil, 0)
+				if err := h.be.Shutdown(context.Background()); err != nil {
+					h.log(2, []int{1}, 0) // returned an error
+				} else {
+					h.log(2, nil, 0)
+				}
 			}()
 			shutPhase = len(phases)
 			ok = endPhase("(2, 0, 0)")
@@ -916,8 +978,8 @@ func vSchedule(out *vOut, rng *vRand, nr int) vSched {
 		if rng.Intn(100) < 50 {
 			id := nextID
 			nextID++
-			if h.offer(id, 1) {
-				accepted = append(accepted, id)
+			if ids := reqIDs(id, 1); h.offer(ids, 1) {
+				accepted = append(accepted, ids...)
 			}
 			out.Stat("offers_after_return", 1)
 			ok = endPhase(fmt.Sprintf("(0, %d, 1)", id))
@@ -951,7 +1013,15 @@ func vSchedule(out *vOut, rng *vRand, nr int) vSched {
 				m++
 			}
 		}
-		phases[shutPhase] = strings.Replace(phases[shutPhase], "((2, 0, 0),", fmt.Sprintf("((2, %d, 1),", m), 1)
+		e := 1 // 2 = Shutdown returned an error
+		h.mu.Lock()
+		for _, ev := range h.events {
+			if ev.kind == 2 && len(ev.ids) > 0 {
+				e = 2
+			}
+		}
+		h.mu.Unlock()
+		phases[shutPhase] = strings.Replace(phases[shutPhase], "((2, 0, 0),", fmt.Sprintf("((2, %d, %d),", m, e), 1)
 		out.Stat("race_observed_m", m)
 	}
 	res.term = fmt.Sprintf("(%s, %s, (%s, %d))", cfg.term(), vList(phases), vIDs(stored), helpers)
@@ -968,6 +1038,17 @@ func vSchedule(out *vOut, rng *vRand, nr int) vSched {
 	}
 
 	// ---- histograms ---------------------------------------------------------------------------------
+	if split {
+		if cfg.persistent {
+			out.Stat("split_cfg_persistent", 1)
+		}
+		out.Stat(fmt.Sprintf("split_cfg_max_%d", cfg.max), 1)
+		out.Stat(fmt.Sprintf("split_cfg_retry_mode_%d", cfg.mode), 1)
+		if len(stored) > 0 {
+			out.Stat("split_schedules_with_items_left_in_storage", 1)
+		}
+		return res
+	}
 	qk := "memory"
 	if cfg.persistent {
 		qk = "persistent"
@@ -990,6 +1071,15 @@ func vSchedule(out *vOut, rng *vRand, nr int) vSched {
 		out.Stat("cfg_batcher_without_queue", 1)
 	}
 	out.Stat(fmt.Sprintf("cfg_retry_mode_%d", cfg.mode), 1)
+	if cfg.faultSize && cfg.persistent && cfg.itemsSizer {
+		out.Stat("cfg_fault_queue_size_write", 1)
+	}
+	if cfg.itemsSizer {
+		out.Stat("cfg_queue_sized_by_items", 1)
+	}
+	if cfg.faultClose {
+		out.Stat("cfg_fault_close", 1)
+	}
 	out.Stat(fmt.Sprintf("cfg_consumers_%d", cfg.consumers), 1)
 	out.Stat("actions", len(phases))
 	if len(stored) > 0 {
@@ -1032,6 +1122,11 @@ func vStress(out *vOut, rng *vRand, nr int) (failed, abort bool) {
 	}
 	if rng.Intn(100) < 30 {
 		cfg.capacity = 3 + rng.Intn(6)
+	}
+	cfg.itemsSizer = (cfg.batch && !cfg.legacy) || rng.Intn(100) < 40
+	if cfg.persistent {
+		cfg.faultSize = rng.Intn(100) < 35
+		cfg.faultClose = rng.Intn(100) < 35
 	}
 	st := &vStorage{m: map[string][]byte{}}
 	h, err := vNewRun(cfg, st, false)
@@ -1181,7 +1276,7 @@ func TestVerifC03(t *testing.T) {
 	n := vBudget(720, 20)
 	t0 := time.Now()
 	for k := 0; k < n; k++ {
-		r := vSchedule(out, rng, k)
+		r := vSchedule(out, rng, k, false)
 		if r.abort {
 			out.Stat("schedules_failed", 1)
 			out.Stat("run_aborted_after_deadline", 1)
@@ -1200,6 +1295,21 @@ func TestVerifC03(t *testing.T) {
 		}
 	}
 	out.Stat("gated_wall_ms", int(time.Since(t0).Milliseconds()))
+	// the split family (oracle-only)
+	prng := vNewRand(333)
+	prng.s = prng.U64()
+	for k, np := 0, vBudget(300, 20); k < np; k++ {
+		r := vSchedule(out, prng, k, true)
+		if r.abort {
+			out.Stat("schedules_failed", 1)
+			out.Stat("run_aborted_after_deadline", 1)
+			return
+		}
+		if r.failed {
+			out.Stat("split_schedules_failed", 1)
+		}
+		out.Stat("split_schedules", 1)
+	}
 	t1 := time.Now()
 	srng := vNewRand(33)
 	srng.s = srng.U64()
